@@ -405,6 +405,13 @@ func (lb *LoadBalancer) processHealthCheckResponse(backend *Backend, resp *http.
 
 	// If we get here, the backend is healthy
 	backend.Mutex.Lock()
+	if !backend.IsHealthy && time.Now().Before(backend.UnhealthyUntil) {
+		// The backend was ejected while this probe was in flight: the probe
+		// result is older than the ejection and must not cut the unhealthy
+		// period short.
+		backend.Mutex.Unlock()
+		return
+	}
 	wasUnhealthy := !backend.IsHealthy
 	backend.IsHealthy = true
 	backend.Mutex.Unlock()
